@@ -283,7 +283,7 @@ def build(repo, native, tier, seed, log=None):
             dict(frm=K('$a0', '$a2'), to=K('LEFTSHIFT', '$a5')), dict(frm=K('$a0', '$a3'), to=K('$a4'))]
     add_spec('template/three-chords-shared-modifier/N4', deep, 4, max(D, 20), alphabet=K('$a0', '$a1', '$a2', '$a3'),
              note='symbolic template, four keys held, event keys restricted to the four trigger keys', no_foreign=quick)
-    nrand = 8 if quick else 60
+    nrand = 11 if quick else 60
     for i in range(nrand):
         nm = rng.choice([1, 2, 2]) if quick else rng.choice([1, 2, 2, 3, 3])
         maps = random_template(rng, nm)
